@@ -68,7 +68,9 @@ def run_endpoints(rep, kf, tier, seed, prop):
 def run(rep, kf, tier, seed):
     import contracts.config_c as cfgc
     import contracts.responses_b as rb
-    engine_b.discharge(rep, kf, [rb.body_from_data_contract(), cfgc.get_content_type_contract()], "C03", tier, seed)
+    import contracts.add_parameters as cap
+    engine_b.discharge(rep, kf, [rb.body_from_data_contract(), cfgc.get_content_type_contract(), cap.add_parameters_contract()],
+                       "C03", tier, seed)
     from props.common import run_bounded
     run_bounded(rep, kf, "C03", ["param_conflicts", "body_media"], tier)
     run_endpoints(rep, kf, tier, seed, "C03")
